@@ -59,7 +59,7 @@ func genProbe(t *rapid.T, cfg hf.Config) hf.Probe {
 
 func genRepl(t *rapid.T, cfg hf.Config) hf.Repl {
 	var r hf.Repl
-	switch rapid.IntRange(0, 11).Draw(t, "repl") {
+	switch rapid.SampledFrom([]int{0, 1, 2, 3, 4, 5, 5, 6, 7, 8, 9, 10, 11}).Draw(t, "repl") {
 	case 0:
 		r.Kind = "empty"
 	case 1:
@@ -73,8 +73,18 @@ func genRepl(t *rapid.T, cfg hf.Config) hf.Repl {
 		}
 	case 4:
 		r.Lag = int64(cfg.SBM) + int64(rapid.SampledFrom([]int{1, 2, 100, 100000}).Draw(t, "lag_over"))
-	case 5:
-		r.Lag, r.IO = -1, rapid.SampledFrom([]string{"No", "Connecting"}).Draw(t, "io")
+	case 5: // NULL Seconds_Behind_Master: a stopped / connecting IO thread, a stopped SQL thread, both, or (not produced by MySQL) running threads
+		r.Lag = -1
+		switch rapid.IntRange(0, 4).Draw(t, "null_lag") {
+		case 0:
+			r.IO = rapid.SampledFrom([]string{"No", "Connecting"}).Draw(t, "io")
+		case 1:
+			r.SQL = "No"
+		case 2:
+			r.IO, r.SQL = "No", "No"
+		case 3:
+			r.IO, r.SQL = "Connecting", "Yes"
+		}
 	case 6:
 		r.Lag, r.SQL = int64(rapid.IntRange(0, 3).Draw(t, "lag_small")), "No"
 	default:
@@ -124,8 +134,6 @@ func genReplica(t *rapid.T) histCase {
 	return c
 }
 
-const knownMasterDown = "C28-F1"
-
 func checkReplica(c histCase) (o pbt.Outcome) {
 	if c.Cfg.DownAfter <= 0 {
 		o.Skip = "down_after must be positive (namespace.go replaces 0 by the default and rejects negatives)"
@@ -172,14 +180,7 @@ func checkReplica(c histCase) (o pbt.Outcome) {
 			label("breaker_count_deviation(C26):" + st.Cat)
 			continue
 		}
-		detail := fmt.Sprintf("policy %s, down_after %ds, limit %ds: %s", c.Cfg.Policy, c.Cfg.DownAfter, c.Cfg.SBM, st.String())
-		if st.Cat == "masterdown_probefail" && !st.Before && st.After && c.Cfg.Policy != "gradual" {
-			// root cause: the master-not-up branch of checkWithNoRecovery / checkWithHardRecovery does not look at the probe result
-			o.Known, o.KnownWhat = knownMasterDown, detail
-			label("known:" + st.Cat)
-			continue
-		}
-		o.Violation = detail
+		o.Violation = fmt.Sprintf("policy %s, down_after %ds, limit %ds: %s", c.Cfg.Policy, c.Cfg.DownAfter, c.Cfg.SBM, st.String())
 		return
 	}
 	for _, is := range tr.Issues {
@@ -194,7 +195,7 @@ func checkReplica(c histCase) (o pbt.Outcome) {
 
 func TestC28Replica(t *testing.T) {
 	pbt.Run(t, pbt.Spec{ID: "C28", Sub: "replica", Quick: 40000, Thorough: 200000,
-		Rule: "no-recovery (60%), hard and gradual replicas; down_after 4-64 s, lag limit 0 (off) / 1-100 s, with and without a health statement; 4-16 ops (up to ~80 rounds) of: rounds at 0-8 s steps with probe outcome (ok, no check connection, ping / select 1 failing at one repeat or always, health statement ok / ordinary error / each fatal class / timeout), SHOW SLAVE STATUS (lag around the limit, stopped IO/SQL thread, NULL lag, empty, no privilege, error), master up/down/missing; clock jumps; breaker calls of every error kind; non-trivial = at least one round in which the reference forces a status change",
+		Rule: "no-recovery (60%), hard and gradual replicas; down_after 4-64 s, lag limit 0 (off) / 1-100 s, with and without a health statement; 4-16 ops (up to ~80 rounds) of: rounds at 0-8 s steps with probe outcome (ok, no check connection, ping / select 1 failing at one repeat or always, health statement ok / ordinary error / each fatal class / timeout), SHOW SLAVE STATUS (lag around the limit, stopped IO/SQL thread, NULL lag with stopped / connecting / running threads, empty, no privilege, error), master up/down/missing; clock jumps; breaker calls of every error kind; non-trivial = at least one round in which the reference forces a status change",
 		Floor: 0.5}, genReplica, checkReplica)
 }
 
